@@ -1,7 +1,7 @@
 #!/bin/bash
 # usage: tools/seedcheck.sh <src-dir with patch.diff, demo_test.go[, NOTES.md]> <demo-pkg-dir relative to repo root ('.' for root)> <name> <property> [checks to run, default: the property]
 # 1. verifies the seeded change independently in a scratch worktree: suite passes with it, demo fails with it, demo passes without it
-# 2. applies it to /repo, runs the listed quick checks, reverts /repo
+# 2. runs the listed quick checks against that scratch worktree (VERIF_REPO/VERIF_OUT), /repo is not touched
 # 3. stores it under /verif/seeded/<name>/ with meta.json
 set -u
 SRC="$1"; PKG="$2"; NAME="$3"; PROP="$4"; shift 4
@@ -25,18 +25,17 @@ echo "SEED $NAME: demo on clean tree rc=$clean_rc (want 0); suite with change rc
 if [ $clean_rc -ne 0 ] || [ $suite_rc -ne 0 ] || [ $mut_rc -eq 0 ]; then
   echo "SEED $NAME: REJECTED"; tail -5 /tmp/seed-$NAME-clean.log /tmp/seed-$NAME-suite.log /tmp/seed-$NAME-mut.log; exit 3
 fi
-# run our checks on /repo with the change
-if [ -n "$(git -C /repo status --porcelain)" ]; then echo "/repo not clean"; exit 2; fi
-git -C /repo apply "$SRC/patch.diff" || exit 2
+# run our checks against the scratch worktree with the change (never against /repo: other runs may be using it)
+rm -f "$demo"
 results=""
 for ck in $CHECKS; do
-  out=$( cd $V && timeout 1800 ./run.sh $ck quick 2>&1 ); rc=$?
+  out=$( cd $V && VERIF_REPO="$WT" VERIF_OUT="/tmp/seedout-$NAME" timeout 1800 ./run.sh $ck quick 2>&1 ); rc=$?
   nv=$(echo "$out" | grep -c '^VIOLATION')
   echo "  check $ck on seeded tree: exit=$rc violations=$nv"
   echo "$out" | grep -A1 '^  clause' | head -6
   results="$results{\"check\":\"$ck\",\"exit\":$rc,\"violation_lines\":$nv},"
 done
-git -C /repo checkout -- . ; git -C /repo status --porcelain | head -3
+rm -rf "/tmp/seedout-$NAME"
 mkdir -p $V/seeded/$NAME
 cp "$SRC/patch.diff" "$SRC/demo_test.go" $V/seeded/$NAME/
 [ -f "$SRC/NOTES.md" ] && cp "$SRC/NOTES.md" $V/seeded/$NAME/
